@@ -156,6 +156,11 @@ func (c17) Run(c *Ctx, i int) CaseResult {
 			}
 		}
 	}
+	if len(res.Fails) == 0 && i%2 == 0 {
+		// the named operation is the one executed also when the document's plans are reused for other names
+		ts := reuseTemplatesFor("multi-operation", "multi-operation-with-mutation")
+		res.Fails = append(res.Fails, ReuseCheck(c, c.Rand(i+84000000), ts[(i/2)%len(ts)], "L0.op-reuse")...)
+	}
 	res.Nontrivial = nops >= 2
 	res.Counters = map[string]int{"operations": nops, "names_tried": len(names)}
 	res.Features = []string{fmt.Sprintf("operations-%d", nops)}
